@@ -305,3 +305,79 @@ func TestReplay_InitializerDependingOnSingleton(t *testing.T) {
 		t.Errorf("REPLAY-CONFIRMED newScope#post[initializers_once_in_order]: initializer ran %d times after one more scope, want 2", ran)
 	}
 }
+
+type rbOutA struct{ n int }
+type rbOutB struct{ n int }
+type rbOut struct {
+	Out
+	A *rbOutA
+	B *rbOutB `group:"rb-bs"`
+}
+
+// scope.createInstance#post[every_output_is_cached_under_its_registration_identity]: outputs of one constructor registered under a
+// name or in a group must be resolvable under exactly those identities, and the constructor runs once per owner.
+func TestReplay_MultiOutputIdentities(t *testing.T) {
+	// multiple return values + Name: the first return value is registered under the name
+	c := NewCollection()
+	runs := 0
+	if err := c.AddSingleton(func() (*rbOutA, *rbOutB) { runs++; return &rbOutA{1}, &rbOutB{2} }, Name("x")); err != nil {
+		t.Fatal(err)
+	}
+	p, err := c.Build()
+	if err != nil {
+		t.Errorf("REPLAY-CONFIRMED scope.createInstance#post[every_output_is_cached_under_its_registration_identity]: multi-return constructor registered with a name cannot be built: %v", err)
+	} else {
+		if a, err := ResolveKeyed[*rbOutA](p, "x"); err != nil || a == nil || a.n != 1 {
+			t.Errorf("REPLAY-CONFIRMED scope.createInstance#post[every_output_is_cached_under_its_registration_identity]: first return value not resolvable under its name: %v %v", a, err)
+		}
+		if b, err := Resolve[*rbOutB](p); err != nil || b == nil || b.n != 2 {
+			t.Errorf("REPLAY-CONFIRMED scope.createInstance#post[every_output_is_cached_under_its_registration_identity]: second return value not resolvable: %v %v", b, err)
+		}
+		if runs != 1 {
+			t.Errorf("REPLAY-CONFIRMED scope.createInstance#post[every_output_is_cached_under_its_registration_identity]: singleton multi-return constructor ran %d times", runs)
+		}
+		p.Close()
+	}
+	// result object with a group field
+	for _, lt := range []Lifetime{Singleton, Scoped} {
+		c := NewCollection()
+		runs := 0
+		ctor := func() rbOut { runs++; return rbOut{A: &rbOutA{1}, B: &rbOutB{2}} }
+		if lt == Singleton {
+			err = c.AddSingleton(ctor)
+		} else {
+			err = c.AddScoped(ctor)
+		}
+		if err != nil {
+			t.Fatal(err)
+		}
+		p, err := c.Build()
+		if err != nil {
+			t.Errorf("REPLAY-CONFIRMED scope.createInstance#post[every_output_is_cached_under_its_registration_identity]: %v result object with a group field cannot be built: %v", lt, err)
+			continue
+		}
+		sc, _ := p.CreateScope(context.Background())
+		before := runs
+		a, aerr := Resolve[*rbOutA](sc)
+		bs, berr := ResolveGroup[*rbOutB](sc, "rb-bs")
+		if aerr != nil || a == nil || berr != nil || len(bs) != 1 || bs[0].n != 2 {
+			t.Errorf("REPLAY-CONFIRMED scope.createInstance#post[every_output_is_cached_under_its_registration_identity]: %v result object: plain field %v (%v), group field %v (%v)", lt, a, aerr, bs, berr)
+		}
+		want := before
+		if lt == Scoped {
+			want = before + 1
+		}
+		if runs != want {
+			t.Errorf("REPLAY-CONFIRMED scope.createInstance#post[every_output_is_cached_under_its_registration_identity]: %v result-object constructor ran %d times for one owner, want %d", lt, runs-before+boolInt(lt == Singleton), 1)
+		}
+		sc.Close()
+		p.Close()
+	}
+}
+
+func boolInt(b bool) int {
+	if b {
+		return 1
+	}
+	return 0
+}
